@@ -2,7 +2,7 @@
    [vm_compute] evaluation inside coqc run exactly the same function.
    A case is a list of numbers; the first is the case kind. *)
 From Coq Require Import NArith List Bool.
-From PDB Require Import Gen.Consts Model.IndexPage Model.Pipeline Model.Meta Model.Migrate Model.ValueTable Model.MultiTree.
+From PDB Require Import Gen.Consts Model.IndexPage Model.Pipeline Model.Meta Model.Migrate Model.ValueTable Model.MultiTree Model.BTreeIter Model.BTreeCheck.
 Import ListNotations.
 Open Scope N_scope.
 
@@ -51,13 +51,45 @@ Definition observe_rc (cfg : list ccfg) (nkeys : nat) (s : pstate) : list N :=
                      then map (fun k => stored_rc s (N.of_nat c) (N.of_nat k)) (seq 0 nkeys) ++ [0]
                      else []) (seq 0 (length cfg)).
 
-Fixpoint run_steps (fuel : nat) (cfg : list ccfg) (nkeys : nat) (s : pstate) (l : list N) : list N :=
+(* iterator view of a btree column: tree content as the log overlay shows it, and the commit overlay;
+   key identities are shifted by one so that 0 stands for "before every key" *)
+Definition backend_of (s : pstate) (c : N) (nkeys : nat) : kvs :=
+  flat_map (fun k => match lov_read (lo s) (tb s) (c, N.of_nat k) with Some (v, _) => [(N.of_nat k + 1, v)] | None => [] end) (seq 0 nkeys).
+Definition overlay_of (s : pstate) (c : N) (nkeys : nat) : ovs :=
+  flat_map (fun k => match look (ov s) (c, N.of_nat k) with Some (_, e) => [(N.of_nat k + 1, e)] | None => [] end) (seq 0 nkeys).
+Definition iter_out (r : option (N * N)) : list N := match r with Some (k, v) => [k; v + 1] | None => [0; 0] end.
+
+Fixpoint run_steps (fuel : nat) (cfg : list ccfg) (nkeys : nat) (s : pstate) (itr : option (N * iter)) (l : list N) : list N :=
   match fuel with
   | O => []
   | S f =>
       match l with
       | [] => []
       | code :: rest =>
+          if (11 <=? code) && (code <=? 15) then
+            (* iterator calls: 11 col = new, 12 key = seek, 13 = seek_to_last, 14 = next, 15 = prev *)
+            let '(itr', out, rest') :=
+              if code =? 11 then
+                match rest with
+                | c :: r => (Some (c, iter_new (backend_of s c nkeys)), [0; 0], r)
+                | [] => (itr, [0; 0], [])
+                end
+              else match itr with
+                   | None => (None, [0; 0], if code =? 12 then tl rest else rest)
+                   | Some (c, it) =>
+                       let b := backend_of s c nkeys in
+                       let o := overlay_of s c nkeys in
+                       if code =? 12 then
+                         match rest with
+                         | k :: r => (Some (c, iter_seek b it k), [0; 0], r)
+                         | [] => (itr, [0; 0], [])
+                         end
+                       else if code =? 13 then (Some (c, iter_seek_last b it), [0; 0], rest)
+                       else let '(r, it') := iter_step (S (S nkeys)) b o it (if code =? 14 then Fwd else Bwd) in
+                            (Some (c, it'), iter_out r, rest)
+                   end in
+            0 :: out ++ observe (length cfg) nkeys s ++ run_steps f cfg nkeys s itr' rest'
+          else
           let '(st, rest') :=
             if code =? 1 then
               match rest with
@@ -74,7 +106,7 @@ Fixpoint run_steps (fuel : nat) (cfg : list ccfg) (nkeys : nat) (s : pstate) (l 
           let '(s', status) := do_step cfg s st in
           status :: observe (length cfg) nkeys s'
             ++ (match st with SReopen => observe_rc cfg nkeys s' | _ => [] end)
-            ++ run_steps f cfg nkeys s' rest'
+            ++ run_steps f cfg nkeys s' (match st with SReopen => None | _ => itr end) rest'
       end
   end.
 
@@ -83,7 +115,7 @@ Definition run_hist (l : list N) : list N :=
   | ncols :: rest =>
       let '(cfg, rest1) := take_cfg (N.to_nat ncols) rest in
       match rest1 with
-      | nkeys :: nsteps :: steps => run_steps (N.to_nat nsteps) cfg (N.to_nat nkeys) init steps
+      | nkeys :: nsteps :: steps => run_steps (N.to_nat nsteps) cfg (N.to_nat nkeys) init None steps
       | _ => err_marker
       end
   | _ => err_marker
@@ -377,12 +409,46 @@ Definition run_c10 (l : list N) : list N :=
   | _ => err_marker
   end.
 
+(* ---- kind 4: dump of an on-disk btree: depth node ; node := nseps inner first? (key child?)* ---- *)
+Fixpoint parse_bt (fuel : nat) (l : list N) : bt * list N :=
+  match fuel with
+  | O => (BNode None [], l)
+  | S f =>
+      match l with
+      | n :: inner :: rest =>
+          let has := negb (inner =? 0) in
+          let '(first, r0) := if has then let '(c, r) := parse_bt f rest in (Some c, r) else (None, rest) in
+          let '(seps, r1) :=
+            (fix go (k : nat) (l : list N) : list (N * option bt) * list N :=
+               match k with
+               | O => ([], l)
+               | S k' =>
+                   match l with
+                   | key :: r =>
+                       let '(c, r') := if has then let '(c, r2) := parse_bt f r in (Some c, r2) else (None, r) in
+                       let '(more, r'') := go k' r' in ((key, c) :: more, r'')
+                   | [] => ([], l)
+                   end
+               end) (N.to_nat n) r0 in
+          (BNode first seps, r1)
+      | _ => (BNode None [], l)
+      end
+  end.
+Definition run_c04_tree (l : list N) : list N :=
+  match l with
+  | depth :: rest =>
+      let '(t, _) := parse_bt (S (length rest)) rest in
+      (if wf_b (N.to_nat depth) 0 4294967296 t then 1 else 0) :: inorder t
+  | _ => err_marker
+  end.
+
 Definition dispatch (l : list N) : list N :=
   match l with
   | 19 :: rest => run_c19 rest
   | 1 :: rest => run_hist rest
   | 17 :: rest => run_c17 rest
   | 9 :: rest => run_c09 rest
+  | 4 :: rest => run_c04_tree rest
   | 10 :: rest => run_c10 rest
   | 110 :: rest => run_c10_debug rest
   | 6 :: rest => run_c06 rest
